@@ -1,11 +1,15 @@
 """C07 - solutions are equivariant under the hexagonal symmetries.
 
-T2: for every ring count the six rotations and the mirror are derived from the published
-centroid coordinates (nearest centroid of the transformed point - NOT from the numbering)
-and the Lean kernel decides that they are automorphisms of the tables the running code
-builds (types, neighbour relation, swirl donor maps - the mirror exchanges the clockwise
-and counter-clockwise donor maps -, pin incidence).  Props/C07.lean proves that every local
-explicit update commutes with such automorphisms, for one step and for whole sweeps.
+T2: for every ring count the rotation by 60 degrees and the mirror (the generators of the
+symmetry group) are derived from the published centroid coordinates (nearest centroid of
+the transformed point - NOT from the numbering) and the Lean kernel decides that they are
+automorphisms of the tables the running code builds (types, neighbour relation, swirl donor
+maps - the mirror exchanges the clockwise and counter-clockwise donor maps -, pin incidence).
+Lemmas/Equivariance.lean turns the Boolean certificates into `IsAuto` (generated instance
+theorems per ring count); Props/C07.lean proves that every local explicit update commutes
+with automorphisms, for one step and for whole sweeps, and that automorphisms compose.
+T1b: that the real interior / bypass update IS local (one update per neighbour-type class)
+is re-established by symbolic execution on every run (shared with C04).
 Oracle: real runs with rotated / mirrored asymmetric power maps, single assemblies and
 whole cores.
 """
@@ -46,7 +50,8 @@ def gen_perm_tables(ctx, n, rng):
     sc = rr.subchannel
     nc = int(sc.n_sc['coolant']['total'])
     L = ["-- GENERATED: symmetry permutations derived from centroid coordinates (n_ring = %d)." % n,
-         "import Dassh.Gen.C08T%d" % n, "", "namespace Dassh.Gen.C07T%d" % n, "open Dassh.Table Dassh.Gen.C08T%d" % n, ""]
+         "import Dassh.Gen.C08T%d" % n, "import Dassh.Lemmas.Equivariance", "", "namespace Dassh.Gen.C07T%d" % n,
+         "open Dassh.Table Dassh.Equivariance Dassh.Gen.C08T%d" % n, ""]
     certs = []
     xy = sc.xy[:nc]
     pxy = rr.pin_lattice.xy
@@ -72,6 +77,24 @@ def gen_perm_tables(ctx, n, rng):
     L.append("def certs : List Bool := [%s]" % ", ".join(certs))
     L.append("theorem certs_ok : certs.all (· = true) = true := by\n  simp only [certs, List.all_cons, List.all_nil, decide_true, Bool.and_self, %s]"
              % ", ".join(c + "_ok" for c in certs))
+    # the certificates as propositions: automorphisms of the real tables, for either wire direction
+    L.append("theorem closed_cw : Closed ncool nb (donorN nint donorCW) := closed_of_certs cert_sym cert_rot1_cw_ok")
+    L.append("theorem closed_ccw : Closed ncool nb (donorN nint donorCCW) := closed_of_certs cert_sym cert_rot1_ccw_ok")
+    L.append("theorem rot_auto_cw : IsAuto ncool tyf nb (donorN nint donorCW) (donorN nint donorCW) (permOf pi_rot1 %d) :=\n"
+             "  isAuto_of_certs cert_sym cert_rot1_cw_ok" % W)
+    L.append("theorem rot_auto_ccw : IsAuto ncool tyf nb (donorN nint donorCCW) (donorN nint donorCCW) (permOf pi_rot1 %d) :=\n"
+             "  isAuto_of_certs cert_sym cert_rot1_ccw_ok" % W)
+    L.append("theorem mir_auto_cw : IsAuto ncool tyf nb (donorN nint donorCW) (donorN nint donorCCW) (permOf pi_mir %d) :=\n"
+             "  isAuto_of_certs cert_sym cert_mir_cw_ok" % W)
+    L.append("theorem mir_auto_ccw : IsAuto ncool tyf nb (donorN nint donorCCW) (donorN nint donorCW) (permOf pi_mir %d) :=\n"
+             "  isAuto_of_certs cert_sym cert_mir_ccw_ok" % W)
+    L.append("/-- everything the equivariance theorems need, for this ring count -/")
+    L.append("def Autos : Prop := Closed ncool nb (donorN nint donorCW) ∧ Closed ncool nb (donorN nint donorCCW)\n"
+             "  ∧ IsAuto ncool tyf nb (donorN nint donorCW) (donorN nint donorCW) (permOf pi_rot1 %d)\n"
+             "  ∧ IsAuto ncool tyf nb (donorN nint donorCCW) (donorN nint donorCCW) (permOf pi_rot1 %d)\n"
+             "  ∧ IsAuto ncool tyf nb (donorN nint donorCW) (donorN nint donorCCW) (permOf pi_mir %d)\n"
+             "  ∧ IsAuto ncool tyf nb (donorN nint donorCCW) (donorN nint donorCW) (permOf pi_mir %d)" % (W, W, W, W))
+    L.append("theorem autos : Autos := ⟨closed_cw, closed_ccw, rot_auto_cw, rot_auto_ccw, mir_auto_cw, mir_auto_ccw⟩")
     L.append("end Dassh.Gen.C07T%d\n" % n)
     ctx.gen("C07T%d" % n, "\n".join(L))
     return maxdev / rr.duct_ftf[-1][1]
@@ -90,6 +113,8 @@ def generate(ctx, ns=None):
             "def allCerts : List Bool := %s" % " ++ ".join("Dassh.Gen.C07T%d.certs" % n for n in ns), "",
             "theorem all_ok : allCerts.all (· = true) = true := by",
             "  simp only [allCerts, List.all_append, Bool.and_self, %s]" % ", ".join("Dassh.Gen.C07T%d.certs_ok" % n for n in ns),
+            "", "def AllAutos : Prop := %s" % " ∧ ".join("Dassh.Gen.C07T%d.Autos" % n for n in ns),
+            "theorem all_autos : AllAutos := ⟨%s⟩" % ", ".join("Dassh.Gen.C07T%d.autos" % n for n in ns),
             "end Dassh.Gen.C07All", ""]
     ctx.gen("C07All", "\n".join(agg))
     return devs
@@ -245,7 +270,7 @@ def oracle_core(ctx, rng, n):
 def run(ctx):
     rng = random.Random(7700 + ctx.seed)
     ns = FULL_N if ctx.thorough else QUICK_N
-    ctx.rule = ("T2: six rotations + mirror derived from centroid coordinates, certificate-checked for ring counts %s; oracle: "
+    ctx.rule = ("T2: rotation by 60 deg + mirror derived from centroid coordinates, certificate-checked for ring counts %s; oracle: "
                 "single assemblies (2-4 rings, 1-2 ducts, both wire directions) with random pin-power maps rotated / mirrored, "
                 "7-position cores with holes rotated by 60 degrees, all gap models" % ns)
     try:
@@ -258,6 +283,20 @@ def run(ctx):
         ok = False
     if ok:
         ctx.prove("Dassh.Props.C07")
+    # the hypothesis of the theorems - the real update is LOCAL: the new value of a cell is one rational function, per
+    # neighbour-type class, of the values at its neighbours by role, its donor and its sources - is re-established on the
+    # code as it is now: the real interior and bypass updates are executed symbolically (T1b, shared with C04) and all cells
+    # of a class must agree after renaming their neighbours to roles
+    try:
+        from harness.checks import c04
+        before = len(ctx.problems)
+        c04.collect(ctx, random.Random(2000))
+        ctx.obligation("local form: every traced interior / bypass cell update equals its class's update under role renaming",
+                       len(ctx.problems) == before, kind="trace-shape",
+                       detail="%d cells disagree with their class" % (len(ctx.problems) - before))
+    except Exception:
+        import traceback
+        ctx.problem("trace-failed", "c07 local-form tracer", traceback.format_exc()[-1500:])
     oracle_single(ctx, rng, 16 if ctx.thorough else 5)
     oracle_core(ctx, rng, 6 if ctx.thorough else 2)
     ctx.nontrivial = ctx.evals
